@@ -58,7 +58,7 @@ class VF(object):
                 return type(x.resolve())
             return x.vf_type
         if f is len:
-            if _isinstance(x, SymStr):
+            if _isinstance(x, SymStr) or hasattr(x, 'vf_len'):
                 return x.vf_len()
             raise Concretization('len(%s)' % _type(x).__name__)
         if f is int:
